@@ -203,3 +203,49 @@ def check_C05(ctx, replay=None):
                   ["a process crash keeps every byte that reached write(2): images are prefixes of the bytes the writer produced, "
                    "the preallocated rest of the segment is zeros",
                    "the open-segment index files are whatever was on disk at the last acknowledgement"])
+
+
+def check_C19(ctx, replay=None):
+    from .p_topology import _tables
+    res = run_tlc(ctx, "Space", "MCSpace.cfg", workers=2, tags=("TABLE",), timeout=600)
+    core.require_actions(res, ["Request"], "space")
+    _tlc_must_hold(ctx, res, "c19:tlc-invariant")
+    if not ctx.quick():
+        dv = run_tlc(ctx, "Space", "MCSpaceDev.cfg", workers=2, tags=(), timeout=600, expect_error=True)
+        if dv.ok:
+            raise core.ToolError("specification self-test failed: MCSpaceDev.cfg (rollover decided on the estimate only) "
+                                 "should violate AcceptedWithinOneRetry")
+    # the table is a function of the class: de-duplicate
+    seen, rows = set(), []
+    for t, v in res.prints:
+        k = json.dumps(v, sort_keys=True)
+        if t == "TABLE" and k not in seen:
+            seen.add(k)
+            rows.append(v)
+    table = ctx.path("space-table.ndjson")
+    with open(table, "w") as f:
+        for r in rows:
+            f.write(json.dumps(r) + "\n")
+    binary = cargo_build(ctx, "h-store")
+    hr = run_harness(ctx, binary, ["space", table], timeout=6000)
+    for v in hr.violations:
+        add_violation(ctx, v["key"], v["detail"], v["replay"])
+    cov = {
+        "states": res.distinct, "transitions": res.generated, "traces_validated_against_impl": hr.stats.get("targets", 0),
+        "samples": hr.stats.get("samples", []),
+        "evaluations": hr.stats["evaluations"], "distinct_nontrivial": hr.stats["distinct_classes"],
+        "classes_in_table": hr.stats.get("classes_in_table"), "classes_covered": hr.stats.get("classes_covered"),
+        "fill_misses": hr.stats.get("fill_misses", 0),
+        "rule": "Space.tla transcribes the writer thread's space rule (admission on the estimate, rollover on the estimate, "
+                "SegmentFull on the stored size, rollover-and-rewrite when a non-empty segment turns out too full) and TLC checks "
+                "NoOverflow / AcceptedWithinOneRetry / AcceptedAtOnce for every fill level and every (estimate, stored) pair; the "
+                "model's table (free space vs estimate, vs stored size, compression shrinks/grows/same -> outcome, rollovers) is "
+                "expanded on a real Database: for each segment size x compression x payload kind (zeros, text, random) x 1-2 events "
+                "x payload length the stored size is measured, the live segment is filled with incompressible filler so that its "
+                "free space takes every value from min(estimate, stored)-2 to max+2 (strided in the middle of wide ranges), the "
+                "transaction is appended and outcome, rollover count and readability are compared with the table. evaluations = "
+                "fill levels tried; distinct_nontrivial = table classes reached on the real code.",
+    }
+    return finish(ctx, "model_checking", cov,
+                  ["domain: transactions whose uncompressed estimate and stored size both fit an empty segment (the admission rule "
+                   "turns away larger estimates by design; they are not judged)"])
